@@ -515,6 +515,31 @@ def state_is_content_checked(idx, fi, hits):
         for n in own_nodes(node):
             if isinstance(n, ast.Assign) and len(n.targets) == 1 and isinstance(n.targets[0], ast.Name) and isinstance(n.value, ast.Call) and isinstance(n.value.func, ast.Attribute) and n.value.func.attr in ("readlines", "read", "read_text", "read_bytes"):
                 fresh.add(n.targets[0].id)
+        if not fresh and node.args.kwarg is not None:
+            # second form: the kept entry is handed, together with the arrays of THIS execution, to a comparison in an `if` test
+            # (`if entry is not None and not same(entry_layers, arrays)`): a cache validated against the current values
+            kw = node.args.kwarg.arg
+            cur = {kw}
+            for _ in range(3):
+                for n in own_nodes(node):
+                    if isinstance(n, ast.Assign) and (names_in(n.value) & cur):
+                        for t in n.targets:
+                            cur |= {x.id for x in ast.walk(t) if isinstance(x, ast.Name)}
+            statenames = {h[2][1] for h in hits if h[0] is f_}
+            kept = set(statenames)
+            for _ in range(3):
+                for n in own_nodes(node):
+                    if isinstance(n, ast.Assign) and (names_in(n.value) & kept):
+                        for t in n.targets:
+                            kept |= {x.id for x in ast.walk(t) if isinstance(x, ast.Name)}
+            kept -= statenames
+            for n in own_nodes(node):
+                if isinstance(n, ast.If):
+                    for c in ast.walk(n.test):
+                        if isinstance(c, ast.Call) and len(c.args) >= 2:
+                            per = [names_in(a) for a in c.args]
+                            if any(p_ & kept and not (p_ & (cur - kept)) for p_ in per) and any(p_ & (cur - kept) and not (p_ & kept) for p_ in per):
+                                return True
         if not fresh:
             continue
         statenames = {h[2][1] for h in hits if h[0] is f_}
